@@ -66,6 +66,29 @@ CLAIMS.update({
    ref='6 / C15'),
 })
 CLAIMS.update({
+ 'C04': dict(
+   text='Proved about the hand model of the polyline stroker (Kurbo/Stroke.lean: stroke_undashed loop, do_join with the join-skip threshold, bevel/miter/round, the inner-join '
+        'pivot, do_line, finish, finish_closed, caps, extend_reversed; compared element by element with the crate on polylines, dashed ones included): never panics on a '
+        'polyline source, extend_reversed is the reversal of the backward path, the output is a concatenation of contours MoveTo (LineTo|CurveTo)* ClosePath (round start cap: '
+        'ends with the cap arc), one per open / two per closed sub-path, empty iff the source has no segment (all for every Scalar, Float included); over a lawful field with '
+        'hypot^2 = x^2+y^2: the offset vector is orthogonal to the tangent with length w/2, do_line edges are parallel at distance w/2, bevel chords stay within w/2, the miter '
+        'point lies on both offset lines and within (w/2 limit) when the model\'s test passes, square cap corners at sqrt2 w/2, the inner pivot is the join point on the inner '
+        'side, and every VERTEX of the outline of a polyline (bevel/miter joins, butt/square caps) is within the style bound of a source vertex. The property itself (covering and '
+        'exclusion of points, all sources incl. curves, all 3x3 styles, dashes) is decided on the implementation by an exact-winding oracle: winding number of the outline over Q '
+        '(Sturm-isolated ray crossings) at query points and next to samples of the outline, against the distance to the source.',
+   note='NOT proved: anything about winding numbers / coverage, points on edges, round joins and caps (arc accuracy: C10), curved sources (curve fitting: C18). One known finding '
+        '(tight curvature: cusps / radius below w/2: spikes and cancellation - the stroker documents that it is not the rigorous parallel sweep); one defect repaired (holes at inner '
+        'joins next to short segments). Style bound read as the product w/2 * sqrt2(square) * limit(miter).',
+   ref='6 / C04'),
+ 'C18': dict(
+   text='Proved about the translated kernel (regenerated from simplify.rs / offset.rs on every run and re-proved equal: GenEquiv): moment_integrals and CubicOffset::{new,eval,'
+        'eval_deriv,cusp_sign} - see the header of lean/Proofs/C18.lean for the exact list (moment integrals = the documented integrals of y dx, x y dx, y^2 dx; additivity under '
+        'subdivision; offset point at distance |d| along the normal; cusp_sign = 1 + curvature * d). The property (end points, continuity, two-sided Hausdorff distance <= 2 accuracy for '
+        'both fitters on smooth G1 chains, offset distance | dist - |d| | <= 2 accuracy for |d| kappa_max <= 0.8, simplify keeps sub-paths, closedness, end points and corners and stays '
+        'within 2 accuracy) is decided on the implementation by a distance oracle with exact nearest-point refinement; moment_integrals also against exact rational integrals and the exact model.',
+   note='NOT proved: every accuracy claim - the fitter accepts candidates on an approximate error estimate (20 ray casts); fit_to_bezpath_rec / simplify_bezpath control flow is not '
+        'modelled (implementation-only oracle). One defect repaired (simplify smoothed over reversals of direction).',
+   ref='6 / C18'),
  'C01': dict(
    text='Proved about the model of winding (Kurbo/Curve.lean), see the header of lean/Proofs/C01.lean for the exact list: the line branch of winding_inner (x-extent early outs included) is the half-open crossing indicator of the leftward ray for EVERY segment and point; on polyline paths pathWinding is the sum of these indicators and, over R, for every list of closed polyline sub-paths (self-intersections, repeated vertices, rows through vertices included) and every point off the path it EQUALS the angle-sum (topological) winding number; reversal negates, inserting a vertex / splitting a line leaves it unchanged, additivity over sub-paths, contains = (winding != 0); for curved segments: winding = sum of winding_inner over the pieces between extrema, and on ONE y-injective piece the quad/cubic branch counts the ray crossing with the half-open rule given the solver specification of C15. The implementation (all path kinds, curved, self-intersecting, multi-contour, rows through vertices/extrema) is decided against an exact rational winding oracle (Sturm isolation of ray crossings) and compared with the exact model; reversal/split/affine metamorphic checks.',
    note='NOT proved: curved paths as a whole (tiling of the monotone pieces, homotopy to a polygon) and the affine law - both decided by the exact oracle only. IEEE rounding is outside the theorems. One known finding (degree-raised cubic: root cause in solve_cubic, C15); two defects of the pinned tree repaired (rows through vertices / end points).',
@@ -135,8 +158,7 @@ CLAIMS.update({
 PENDING = set()
 for _p in PENDING:
     CLAIMS.pop(_p, None)
-NA = {'C04': 'stroke outline region: machinery under construction (see DESIGN.md section 10); until it runs clean it is not claimed',
-      'C18': 'fit/offset/simplify proximity: machinery under construction (see DESIGN.md section 10); until it runs clean it is not claimed'}
+NA = {}
 def main():
     ids = ['C%02d' % i for i in range(1, 21)]
     checks = []
